@@ -16,12 +16,7 @@ HDR_DRV = ('From Coq Require Import List NArith.\nImport ListNotations.\nFrom VM
            'From VDrv Require Import MemCopy.\nOpen Scope N_scope.\n')
 COQ_TARGETS = ['props/C11.vo']
 
-KNOWN_KEYS = {}
-KNOWN_FLUSH_LAST = ('[flush-response-last] a copy command whose flush response arrives after its last copy response never completes '
-                    '(processFlushReturn does not test for completion)')
-KNOWN_FREED = ('[remove-freed-buffers-panic] a flushing D2H copy panics in Context.removeFreedBuffers (slice bounds out of range) '
-               'when two or more freed buffers are still listed')
-KNOWN_ZERO_LEN = '[zero-length-copy-hangs] a zero-length copy through the default middleware never completes (no request is sent, the queue stays running)'
+# no open known findings: the two hang findings and the freed-buffer panic are repaired (see docs/C11.md)
 
 
 # ------------------------------------------------------------------ monitors
@@ -140,7 +135,7 @@ def mon_dma(case):
                         return 'D2H command %d returned %d at offset %d, memory holds %d' % (d['id'], d['data'][k], k, want)
     if case.get('drained'):
         for cid, c in delivered.items():
-            if len(c['data']) > 0 and cid not in done:
+            if cid not in done:
                 return 'command %d never completed although every sub-request was answered' % cid
     return None
 
@@ -188,16 +183,6 @@ def translate(case):
     return tr
 
 
-def known_class(case, op):
-    if not case['magic'] and not op['crash'] and not op['completed'] and op['op'] in ('h2d', 'd2h'):
-        n = len(op['data']) if op['op'] == 'h2d' else op['n']
-        if n == 0 and not op['flush']:
-            return KNOWN_ZERO_LEN
-        if op.get('flush_last') and op['flush'] and op['completed_after'] < 0:
-            return KNOWN_FLUSH_LAST
-    return None
-
-
 def mon_drv(case):
     """Flat byte-array reference over virtual addresses.  Returns (violation, known)."""
     tr = translate(case)
@@ -214,19 +199,12 @@ def mon_drv(case):
         n = len(op['data']) if kind in ('h2d', 'accw') else op['n']
         mapped = all(tr(a) is not None for a in ({op['addr'] + i for i in range(0, n, ps)} | ({op['addr'] + n - 1} if n else set())))
         if op['crash']:
-            if mapped and kind == 'd2h' and not case['magic'] and sum(1 for b in op['bufs'] if b.get('freed')) >= 2 and \
-               any(b['dirty'] and max(b['start'], op['addr']) < min(b['start'] + b['size'], op['addr'] + n) for b in op['bufs']):
-                return None, KNOWN_FREED
             if mapped:
                 return 'operation %d (%s %#x +%d) panicked although every page is mapped' % (k, kind, op['addr'], n), known
             return None, known            # nothing after a panic is judged
         if not mapped:
             return 'operation %d (%s %#x +%d) touched an unmapped page without failing' % (k, kind, op['addr'], n), known
         if kind in ('h2d', 'd2h') and not case['magic']:
-            kc = known_class(case, op)
-            if kc:
-                known = kc
-                return None, known
             if not op['completed']:
                 return 'operation %d (%s) never completed although all %d requests were answered' % (k, kind, op['total']), known
             if op['completed_after'] != op['total']:
@@ -285,7 +263,8 @@ def strip(obj):
         out['drv'].append({'lg': c['lg'], 'magic': c['magic'], 'ngpu': c['ngpu'],
                            'allocs': [{'size': a['size'], 'gpu': a['gpu'], 'remap': a.get('remap', [])} for a in c['allocs']],
                            'ops': [{'op': o['op'], 'addr': o['addr'], 'data': o.get('data', []), 'n': o.get('n', 0),
-                                    'typ': o.get('typ', 'bytes'), 'flush_last': o.get('flush_last', False)} for o in c['ops']]})
+                                    'typ': o.get('typ', 'bytes'), 'flush_last': o.get('flush_last', False),
+                                    'order': o.get('order') or []} for o in c['ops']]})
     for c in obj.get('ovl', []):
         out['ovl'].append({k: c[k] for k in ('s1', 'e1', 's2', 'e2')})
     for c in obj.get('hist', []):
@@ -318,6 +297,8 @@ PLATFORM_SAMPLES = [
     ('memcopy-timing', './amd/samples/memcopy', ['-timing', '-verify']),
     ('relu-timing', './amd/samples/relu', ['-timing', '-verify']),      # copy - kernel - copy: the D2H needs the flush
     ('memcopy-emu', './amd/samples/memcopy', ['-verify']),
+    ('relu-timing-2gpu', './amd/samples/relu', ['-timing', '-verify', '-gpus=1,2']),   # flushes go to both GPUs
+    ('fir-timing-2gpu', './amd/samples/fir', ['-timing', '-verify', '-gpus=1,2']),
 ]
 
 
